@@ -156,8 +156,10 @@ pub fn run(opts: &Opts, rep: &Report) {
     }
     rep.add("policy_sessions_enumerated", sessions.len() as u64);
     let mut done = 0;
-    for chunk in sessions.chunks(512) {
-        if budget.exceeded() {
+    // the policy sweep may use 60% of the budget; the deviation-bounded exploration gets the rest
+    let policy_budget = Budget::new(opts.budget_s * 0.6);
+    for chunk in sessions.chunks(96) {
+        if policy_budget.exceeded() {
             rep.cap_hit(&format!("budget: {done}/{} policy sessions run", sessions.len()));
             break;
         }
@@ -204,7 +206,7 @@ pub fn run(opts: &Opts, rep: &Report) {
             }
         }
         rep.add("deviation1_sessions", devs.len() as u64);
-        for chunk in devs.chunks(256) {
+        for chunk in devs.chunks(96) {
             if budget.exceeded() {
                 rep.cap_hit("budget: deviation-1 exploration of a system cut short");
                 break;
